@@ -3,7 +3,7 @@ import json, os, re
 import vlib, e2e, gen_conv, gen_units, docs
 from vlib import hx, unhx, case_line, show
 
-THEOREMS = ["C11_run_never_panics", "C11_convert_never_panics", "C11_load_never_panics", "C11_stored_values_readable", "C11_parsed_units_validated", "C11_merged_units_validated", "C11_lookups_do_not_panic", "C11_values_have_no_nul", "C11_total_functions", "C11_pinned_refuted"]
+THEOREMS = ["C11_run_never_panics", "C11_convert_never_panics", "C11_load_never_panics", "C11_stored_values_readable", "C11_parsed_units_validated", "C11_merged_units_validated", "C11_lookups_do_not_panic", "C11_values_have_no_nul", "C11_total_functions", "C11_pinned_refuted", "C11_run_with_dropins_never_panics"]
 SITES_FILE = os.path.join(vlib.VERIF, "tools", "panic_sites.json")
 
 
